@@ -678,8 +678,9 @@ def rule_G(ctx):
         pass
     # kernel objects: the window first (symmetric, odd, sums to 1, non-negative), then the filter with both boundary settings
     kernels = []
-    for cname, arg in (('GaussianKernel', 1.0), ('GaussianKernel', 0.5), ('TriangularKernel', 2.0), ('TriangularKernel', 3.0), ('UniformKernel', 1.0),
-                       ('UniformKernel', 1.5), ('ExponentialKernel', 1.0), ('EpanechnikovKernel', 3.0), ('EpanechnikovKernel', 2.0)):
+    # (kernels of one class whose widths differ by less than a sample follow each other: what is computed for one is not the other's)
+    for cname, arg in (('GaussianKernel', 1.0), ('GaussianKernel', 1.2), ('GaussianKernel', 0.5), ('TriangularKernel', 2.0), ('TriangularKernel', 2.5), ('TriangularKernel', 3.0), ('UniformKernel', 1.0),
+                       ('UniformKernel', 1.5), ('ExponentialKernel', 1.0), ('ExponentialKernel', 1.1), ('EpanechnikovKernel', 3.0), ('EpanechnikovKernel', 2.0), ('EpanechnikovKernel', 2.4)):
         if cname in KCLS:
             kernels.append((cname, arg))
     if len(kernels) < 4:
